@@ -37,6 +37,16 @@ import (
 	"golang.org/x/net/context"
 )
 
+// fetchingIgnoreHeaders 状态为fetching的请求转发至upstream时需要忽略的请求头
+var fetchingIgnoreHeaders = []string{
+	elton.HeaderIfModifiedSince,
+	elton.HeaderIfNoneMatch,
+	"If-Match",
+	"If-Unmodified-Since",
+	"If-Range",
+	"Range",
+}
+
 var (
 	noCacheReg = regexp.MustCompile(`(?i)no-cache|no-store|private`)
 	sMaxAgeReg = regexp.MustCompile(`(?i)(?:^|,)\s*s-maxage=(\d+)`)
@@ -106,17 +116,21 @@ func NewProxy(s *server) elton.Handler {
 		}
 
 		reqHeader := c.Request.Header
-		var ifModifiedSince, ifNoneMatch string
 		status := getCacheStatus(c)
-		// 针对fetching的请求，由于其最终状态未知，因此需要删除有可能导致304的请求，避免无法生成缓存
+		// 针对fetching的请求，由于其最终状态未知，因此需要删除有可能导致304、206或412的请求头，
+		// 避免缓存了仅针对该客户端（条件请求或range请求）的响应
+		var ignoredHeader http.Header
 		if status == cache.StatusFetching {
-			ifModifiedSince = reqHeader.Get(elton.HeaderIfModifiedSince)
-			ifNoneMatch = reqHeader.Get(elton.HeaderIfNoneMatch)
-			if ifModifiedSince != "" {
-				reqHeader.Del(elton.HeaderIfModifiedSince)
-			}
-			if ifNoneMatch != "" {
-				reqHeader.Del(elton.HeaderIfNoneMatch)
+			for _, key := range fetchingIgnoreHeaders {
+				values := reqHeader.Values(key)
+				if len(values) == 0 {
+					continue
+				}
+				if ignoredHeader == nil {
+					ignoredHeader = make(http.Header)
+				}
+				ignoredHeader[key] = values
+				reqHeader.Del(key)
 			}
 		}
 
@@ -165,11 +179,8 @@ func NewProxy(s *server) elton.Handler {
 		}
 
 		// 恢复请求头
-		if ifModifiedSince != "" {
-			reqHeader.Set(elton.HeaderIfModifiedSince, ifModifiedSince)
-		}
-		if ifNoneMatch != "" {
-			reqHeader.Set(elton.HeaderIfNoneMatch, ifNoneMatch)
+		for key, values := range ignoredHeader {
+			reqHeader[key] = values
 		}
 		if acceptEncodingChanged {
 			reqHeader.Set(elton.HeaderAcceptEncoding, acceptEncoding)
